@@ -1,15 +1,49 @@
 ----------------------------- MODULE CompressGen -----------------------------
-(* emits histories (config switches, writes with redirections, reads) for replay *)
+(* emits histories (config switches, writes with several value positions, redirections and   *)
+(* concurrent traffic, reads at every reply nesting depth) for replay on the real processor. *)
+(* GenSpec: random histories (simulation).  StrataSpec: the mandatory strata, enumerated      *)
+(* completely: compression on, ONE write of every shape (value positions x redirections x     *)
+(* traffic), optionally compression switched off again, ONE read of every shape.              *)
 EXTENDS Compress, Json
-VARIABLES hist, finished
-gvars == <<vars, hist, finished>>
-GenInit == Init /\ hist = <<[a |-> "config", c |-> cfg, k |-> "", cls |-> "", r |-> 0]>> /\ finished = FALSE
-Finish == /\ ~finished /\ ops = MaxOps /\ PrintT("@@BEH " \o ToJson(hist)) /\ finished' = TRUE /\ UNCHANGED <<vars, hist>>
-GenNext ==
-  /\ ~finished
-  /\ \/ \E c \in Configs : SetConfig(c) /\ hist' = Append(hist, [a |-> "config", c |-> c, k |-> "", cls |-> "", r |-> 0])
-     \/ \E k \in Keys, cls \in Classes, r \in 0..MaxRedirects : Write(k, cls, r) /\ hist' = Append(hist, [a |-> "write", c |-> "", k |-> k, cls |-> cls, r |-> r])
-     \/ \E k \in Keys, r \in 0..MaxRedirects : Read(k, r) /\ hist' = Append(hist, [a |-> "read", c |-> "", k |-> k, cls |-> "", r |-> r])
-  /\ UNCHANGED finished
+VARIABLES hist, finished,
+          kind      \* simulation only: the kind of the next operation is drawn first, then its parameters (TLC draws
+                    \* uniformly among successor states; without this nearly every step of a random history is a write)
+gvars == <<vars, hist, finished, kind>>
+
+Ev(a, c, k, vals, r, busy, d) == [a |-> a, c |-> c, k |-> k, vals |-> vals, r |-> r, busy |-> busy, d |-> d]
+EvConfig(c) == Ev("config", c, "", <<>>, 0, FALSE, 0)
+EvWrite(k, vals, r, busy) == Ev("write", "", k, vals, r, busy, 0)
+EvRead(k, r, d) == Ev("read", "", k, <<>>, r, FALSE, d)
+
+GenInit == Init /\ hist = <<EvConfig(cfg)>> /\ finished = FALSE /\ kind = ""
+Finish == /\ ~finished /\ ops = MaxOps /\ PrintT("@@BEH " \o ToJson(hist)) /\ finished' = TRUE /\ UNCHANGED <<vars, hist, kind>>
+Draw ==
+  /\ kind = "" /\ ops < MaxOps
+  /\ kind' \in {"config", "write"} \cup (IF \E k \in Keys : stored[k] # <<>> THEN {"read"} ELSE {})
+  /\ UNCHANGED <<vars, hist>>
+Do ==
+  /\ \/ kind = "config" /\ \E c \in Configs : SetConfig(c) /\ hist' = Append(hist, EvConfig(c))
+     \/ kind = "write" /\ \E k \in Keys, vals \in ValSeqs, r \in 0..MaxRedirects, busy \in BOOLEAN :
+          Write(k, vals, r, busy) /\ hist' = Append(hist, EvWrite(k, vals, r, busy))
+     \/ kind = "read" /\ \E k \in Keys, r \in 0..MaxRedirects, d \in Depths : Read(k, r, d) /\ hist' = Append(hist, EvRead(k, r, d))
+  /\ kind' = ""
+GenNext == ~finished /\ (Draw \/ Do) /\ UNCHANGED finished
 GenSpec == GenInit /\ [][GenNext \/ Finish]_gvars
+
+-----------------------------------------------------------------------------
+SKey == CHOOSE k \in Keys : TRUE
+Last == hist[Len(hist)]
+StrataInit == GenInit /\ cfg = "enabled"
+StrataNext ==
+  /\ ~finished
+  /\ \/ /\ Len(hist) = 1
+        /\ \E vals \in ValSeqs, r \in 0..MaxRedirects, busy \in BOOLEAN :
+             Write(SKey, vals, r, busy) /\ hist' = Append(hist, EvWrite(SKey, vals, r, busy))
+     \/ /\ Len(hist) = 2
+        /\ SetConfig("disabled") /\ hist' = Append(hist, EvConfig("disabled"))
+     \/ /\ Len(hist) \in {2, 3} /\ Last.a # "read"
+        /\ \E r \in 0..MaxRedirects, d \in Depths : Read(SKey, r, d) /\ hist' = Append(hist, EvRead(SKey, r, d))
+  /\ UNCHANGED <<finished, kind>>
+StrataFinish == /\ ~finished /\ Last.a = "read" /\ PrintT("@@BEH " \o ToJson(hist)) /\ finished' = TRUE /\ UNCHANGED <<vars, hist, kind>>
+StrataSpec == StrataInit /\ [][StrataNext \/ StrataFinish]_gvars
 =============================================================================
